@@ -159,6 +159,15 @@ pub fn vecs() -> Vec<Vec<Value>> {
         vec![Value::String("a".into()), Value::String("b".into())],
         vec![Value::Bool(true)],
         vec![Value::Float(f64::NAN), Value::Decimal(Decimal::new(10, 1))],
+        // the same number in another numeric type / another scale: equal lists only if no element is coerced
+        vec![Value::Float(1.0)],
+        vec![Value::Decimal(Decimal::new(1, 0))],
+        vec![Value::Decimal(Decimal::new(10, 1))],
+        vec![Value::Int(1), Value::Int(2)],
+        vec![Value::Int(2), Value::Int(1)],
+        vec![Value::Float(0.0)],
+        vec![Value::Float(-0.0)],
+        vec![Value::Map(map(&[("a", Value::Int(1))]))],
     ]
 }
 
@@ -175,6 +184,11 @@ pub fn maps() -> Vec<BTreeMap<String, Value>> {
         map(&[("a", Value::Map(map(&[("b", Value::Map(map(&[("c", Value::Int(3))])))])))]),
         map(&[("b", Value::String("x".into())), ("a", Value::Vec(vec![Value::Int(1)]))]),
         map(&[("abc", Value::Int(1)), ("", Value::Int(0))]),
+        map(&[("a", Value::Float(1.0))]),
+        map(&[("a", Value::Decimal(Decimal::new(1, 0)))]),
+        map(&[("a", Value::String("1".into()))]),
+        map(&[("A", Value::Int(1))]),
+        map(&[("a", Value::Vec(vec![Value::Int(1)]))]),
     ]
 }
 
